@@ -350,6 +350,12 @@ def rule_rl_rank(prog: Program, report: Report, anchors: list[tuple[str, str]]) 
                     for x in ast.walk(n.test):
                         if isinstance(x, ast.Name):
                             exit_reads.add(x.id)
+            for n in ast.walk(loop):
+                # a bounded container access (`.child(i)` / `S[i]`) also bounds the counter: it raises past the end
+                if isinstance(n, ast.Call) and isinstance(n.func, ast.Attribute) and n.func.attr == "child":
+                    exit_reads |= {x.id for a in n.args for x in ast.walk(a) if isinstance(x, ast.Name)}
+                if isinstance(n, ast.Subscript):
+                    exit_reads |= {x.id for x in ast.walk(n.slice) if isinstance(x, ast.Name)}
             ranked = sorted(k for k in (common or {}) if k in exit_reads)
             if not cps:
                 raise AnalysisError(f"RL-rank: {key}: no cycle path found")
